@@ -29,7 +29,7 @@ def run(ctx):
         rng = random.Random("C24/%d/%s/%d" % (ctx.seed, ctx.tier, k))
         p = R.gen_hier(rng, "g%d" % k, max_hosts=24 if quick else 40) if rng.random() < 0.9 \
             else R.gen_cluster_parent(rng, "k%d" % k)
-        if len(p.hosts()) <= 40 and len(p.pairs) <= (700 if quick else 1700):
+        if len(p.hosts()) <= 40 and 1 <= len(p.pairs) <= (700 if quick else 1700):
             plats.append(p)
     R.run_check(ctx, plats, chunk=2 if quick else 6,
                 nontrivial=lambda plat, s, d: plat.zone_of_host(s) is not plat.zone_of_host(d),
